@@ -84,6 +84,45 @@ def explicit_case(cid: str, M: list, fmt: str, breaks: set, blanks=frozenset(), 
             "loaded": mat_of(inst)}
 
 
+def scaled_case(cid: str, M: list, fmt: str | None, scale: int, rng: random.Random) -> dict:
+    """Weights far beyond 32 bits: scale * M written by the driver in format fmt, or (fmt None) written by
+    Instance.to_stream for the instance built from scale * M; loaded again."""
+    from ..core import big
+    n = len(M)
+    sym = all(M[i][j] == M[j][i] for i in range(n) for j in range(n))
+    rec = {"id": cid, "kind": "scaled", "what": "explicit" if fmt else "roundtrip", "n": n, "M": M,
+           "bscale": big(scale), "ok": 1, "div_ok": 1, "loadedB": []}
+    if fmt:
+        toks = tokens_of(fmt, M)
+        lines = explicit_text("v", n, fmt, sym, wrap([t * scale for t in toks],
+                                                       {b for b in range(1, len(toks)) if rng.random() < 0.3}))
+    else:
+        inst = ts.make_instance([[v * scale for v in r] for r in M])
+        lines = []
+        inst.to_stream(lines.append)
+        fmt, big_toks, in_data = "", [], False
+        for ln in lines:
+            st = ln.strip()
+            if st.startswith("EDGE_WEIGHT_FORMAT"):
+                fmt = st.split(":", 1)[1].strip()
+            elif st == "EDGE_WEIGHT_SECTION":
+                in_data = True
+            elif st == "EOF":
+                in_data = False
+            elif in_data:
+                big_toks.extend(int(t) for t in st.split())
+        rec["div_ok"] = 1 if all(t % scale == 0 for t in big_toks) else 0
+        toks = [t // scale for t in big_toks]
+    rec.update(fmt=fmt, tokens=[small(t) for t in toks])
+    try:
+        back = load_text(lines)
+        rec["loadedB"] = [[big(int(back[i, j])) if int(back[i, j]) >= 0 else [-1] for j in range(n)] for i in range(n)]
+    except ValueError as ex:
+        rec["ok"] = 0
+        rec["error"] = str(ex)[:200]
+    return rec
+
+
 def roundtrip_case(cid: str, M: list, name: str) -> dict:
     inst = ts.make_instance(M, name=name)
     lines: list = []
@@ -228,6 +267,24 @@ def run(prop: str, tier: str, seed: int) -> int:
             except ValueError:
                 pass
         rep.nontrivial += 2      # the explicit-format case and the write/read case (the coordinate case is counted below)
+    # ---- weights far beyond 32 bits, in every explicit format and through the writer
+    for k in range({"quick": 40, "thorough": 400}[tier]):
+        n = rng.randint(2, 6)
+        symm = rng.random() < 0.6
+        M0 = [[0] * n for _ in range(n)]
+        for i in range(n):
+            for j in range(n):
+                if i != j:
+                    M0[i][j] = rng.randint(1, 9)
+        if symm:
+            for i in range(n):
+                for j in range(i):
+                    M0[i][j] = M0[j][i]
+        scale = rng.choice([2 ** 31 - 1, 2 ** 31, 2 ** 32 + 22, 10 ** 10, 10 ** 11])
+        fmt = rng.choice([None, "FULL_MATRIX"] + (["UPPER_ROW", "LOWER_DIAG_ROW", "UPPER_DIAG_ROW"] if symm else []))
+        cases.append(scaled_case(f"large-weights-{k}", M0, fmt, scale, rng))
+        rep.family("large-weights(explicit formats and writer)", 1, 1)
+        rep.nontrivial += 1
     # ---- shipped optimal tours
     from moptipyapps.tsp.known_optima import list_resource_tours, opt_tour_from_resource
     I = ts.mods()["Instance"]
